@@ -360,30 +360,46 @@ func replayCLI(args []string) error {
 		}
 		return b.String(), nil
 	}
-	// reference: the index of the rows UpdogCLI prescribes (record i -> row i, one value per normalised header)
-	refPath := vx.Join(dir, "big_ref.updog")
-	rw := updog.NewIndexWriter(refPath)
+	// expected answers, computed directly from the rows UpdogCLI prescribes (record i -> row i, one value per normalised
+	// header): no reference index built by the library in between
+	type bigRow struct{ parity, block, id string }
+	var bigRows []bigRow
 	for i := 0; i < 8192; i++ {
-		rw.AddRow(map[string]string{"parity": []string{"even", "odd"}[i%2], "block": fmt.Sprintf("b%d", i/4096), "id": fmt.Sprintf("r%d", i)})
+		bigRows = append(bigRows, bigRow{[]string{"even", "odd"}[i%2], fmt.Sprintf("b%d", i/4096), fmt.Sprintf("r%d", i)})
 	}
-	if err := rw.Flush(); err != nil {
-		return err
+	var wb strings.Builder
+	for _, q := range [][2]string{{"parity", "even"}, {"parity", "odd"}, {"block", "b0"}, {"block", "b1"}, {"id", "r4095"}, {"id", "r4096"}, {"id", "r8191"}} {
+		count := uint64(0)
+		per := map[string]uint64{}
+		for _, r := range bigRows {
+			if map[string]string{"parity": r.parity, "block": r.block, "id": r.id}[q[0]] == q[1] {
+				count++
+				per[r.block]++
+			}
+		}
+		groups := []updog.ResultGroup{}
+		for _, blk := range []string{"b0", "b1"} {
+			if per[blk] > 0 {
+				groups = append(groups, updog.ResultGroup{Fields: []updog.ResultField{{Column: "block", Value: blk}}, Count: per[blk]})
+			}
+		}
+		fmt.Fprintf(&wb, "%s=%s:%d%v;", q[0], q[1], count, groups)
 	}
-	want, err := light(refPath)
-	if err != nil {
-		return err
-	}
+	want := wb.String()
 	for _, bigMode := range []bool{false, true} {
 		outPath := vx.Join(dir, fmt.Sprintf("big_%v.updog", bigMode))
 		argv := []string{"create", "-o", outPath}
 		if bigMode {
 			argv = append(argv, "-b")
 		}
-		cmd := exec.Command(*bin, append(argv, csvPath)...)
+		lctx, lcancel := context.WithTimeout(context.Background(), 120*time.Second)
+		cmd := exec.CommandContext(lctx, *bin, append(argv, csvPath)...)
 		cmd.Env = append(os.Environ(), "TMPDIR="+dir)
 		rep.Steps++
 		rep.Behaviours++
-		if err := cmd.Run(); err != nil {
+		err := cmd.Run()
+		lcancel()
+		if err != nil {
 			rep.Mismatch(map[string]any{"kind": "cli", "defect": "none", "pre": "absent", "csv": "8192 records (blocks of 4096)", "big": bigMode, "problem": "create failed: " + err.Error()})
 			continue
 		}
